@@ -37,7 +37,7 @@ view == <<m, now, noms, eff, marked, effMarked, everUnmarked, phase, cand, cmds,
 AllWeakM == {"firstNominationWins", "remarkIgnored", "waitIgnored"}
 
 Pod == [key |-> "default/px", active |-> TRUE, dndKind |-> "none", dndSec |-> -1, started |-> 100, evictKind |-> TRUE,
-        npdb |-> 0, pdbAllowed |-> 1, pdbWaived |-> FALSE, resched |-> TRUE]
+        npdb |-> 0, pdbAllowed |-> 1, pdbWaived |-> FALSE, resched |-> TRUE, costPos |-> TRUE]
 \* X as the method's best candidate; only the in-memory protections vary
 View(mm, until, mk) ==
     [managed |-> TRUE, hasNode |-> TRUE, initialized |-> TRUE, deleting |-> FALSE, nodeDeleting |-> FALSE,
